@@ -35,6 +35,11 @@ type KV struct{ K, V string }
 type Meta struct {
 	CT, CC string
 	UM     []KV
+	// EmptyUM: no user metadata, written as an explicitly empty map ("metadata": {}) — the same as none
+	EmptyUM bool `json:",omitempty"`
+	// OutOnly: the resource also carries output-only fields (generation, metageneration), as a client
+	// does that sends back a resource it had fetched; the service must ignore them
+	OutOnly bool `json:",omitempty"`
 }
 
 // Conds are symbolic: u(nset) cur other zero bad, for gm gnm mm mnm.
@@ -493,6 +498,12 @@ func metaJSON(name string, m Meta, md5 string) map[string]any {
 			um[kv.K] = kv.V
 		}
 		j["metadata"] = um
+	} else if m.EmptyUM {
+		j["metadata"] = map[string]string{}
+	}
+	if m.OutOnly {
+		j["generation"] = "9223372036854775807"
+		j["metageneration"] = "9"
 	}
 	if md5 != "" {
 		j["md5Hash"] = md5
